@@ -47,14 +47,16 @@ func (h *handler) authenticate(resp http.ResponseWriter, req *http.Request) bool
 		err = h.sc.Decode(authcookie, cookie.Value, ad)
 		if err == nil {
 			if ad.Expiration.Before(time.Now()) {
-				return true
-			}
-			inOrg, err := h.userInOrg(ad.AccessToken)
-			if err != nil {
-				log.Errorf("Unable to check if user is in org: %v", err)
-			} else if inOrg {
-				ad.Expiration = time.Now().Add(sessionTimeout)
-				return true
+				// session has expired, need to log in again
+				log.Debug("Session expired")
+			} else {
+				inOrg, err := h.userInOrg(ad.AccessToken)
+				if err != nil {
+					log.Errorf("Unable to check if user is in org: %v", err)
+				} else if inOrg {
+					ad.Expiration = time.Now().Add(sessionTimeout)
+					return true
+				}
 			}
 		}
 	}
